@@ -68,3 +68,55 @@ def replay_keyfiles(inp):
                 bad.append({"history": "%s, loaded as %s" % (name, cls.__name__),
                             "why": ["%s escaped: %s" % (type(e).__name__, str(e)[:80])]})
     return {"violates": bool(bad), "evaluations": n, "detail": bad[:4]}
+
+
+def decode_wrong_material(inp):
+    """key material that is well-formed at the file level but is not a key of the class asked for: OpenSSH-format RSA files
+    with numbers that do not fit together, an EC key inside an RSA PRIVATE KEY block and the other way round, a key file
+    with a byte that is not text - each must fail with SSHException"""
+    import base64
+    import io
+    import os
+    import tempfile
+    from cryptography.hazmat.primitives import serialization
+    from cryptography.hazmat.primitives.asymmetric import ec, rsa
+    from paramiko import RSAKey, ECDSAKey, SSHException, PasswordRequiredException
+    bad = []
+
+    def attempt(label, cls, text=None, path=None):
+        try:
+            if path:
+                cls.from_private_key_file(path)
+            else:
+                cls.from_private_key(io.StringIO(text))
+        except (SSHException, PasswordRequiredException):
+            return
+        except Exception as e:
+            bad.append({"input": label, "class": cls.__name__, "raised": "%s: %s" % (type(e).__name__, str(e)[:60])})
+    r = rsa.generate_private_key(65537, 1024)
+    pem = r.private_bytes(serialization.Encoding.PEM, serialization.PrivateFormat.OpenSSH, serialization.NoEncryption()).decode()
+    lines = pem.strip().split("\n")
+    body = base64.b64decode("".join(lines[1:-1]))
+    for i in range(60, len(body), 7):
+        b = bytearray(body)
+        b[i] ^= 0x41
+        attempt("OpenSSH-format RSA key, byte %d flipped" % i, RSAKey,
+                lines[0] + "\n" + base64.encodebytes(bytes(b)).decode() + lines[-1] + "\n")
+        if len(bad) >= 2:
+            break
+    e = ec.generate_private_key(ec.SECP256R1())
+    ecpem = e.private_bytes(serialization.Encoding.PEM, serialization.PrivateFormat.TraditionalOpenSSL, serialization.NoEncryption()).decode()
+    rsapem = r.private_bytes(serialization.Encoding.PEM, serialization.PrivateFormat.TraditionalOpenSSL, serialization.NoEncryption()).decode()
+    attempt("an EC key inside an RSA PRIVATE KEY block", RSAKey, ecpem.replace("EC PRIVATE KEY", "RSA PRIVATE KEY"))
+    attempt("an RSA key inside an EC PRIVATE KEY block", ECDSAKey, rsapem.replace("RSA PRIVATE KEY", "EC PRIVATE KEY"))
+    d = tempfile.mkdtemp(prefix="c37_")
+    try:
+        p = os.path.join(d, "k")
+        raw = rsapem.encode()
+        with open(p, "wb") as f:
+            f.write(raw[:100] + b"\xff" + raw[100:])
+        attempt("a key file with a byte that is not text", RSAKey, path=p)
+    finally:
+        import shutil
+        shutil.rmtree(d, ignore_errors=True)
+    return {"violates": bool(bad), "detail": bad[:5]}
